@@ -509,3 +509,76 @@ func frameOracles(cs *exCase, run *exRun, transfers []transferObs, digest0, dige
 	}
 	return out
 }
+
+// switchOracle (C05, join points switched on/off between calls): a CALL frame whose callee's code ran must have queried
+// its pre join point iff the switch was on when the frame was entered, and its post join point iff it was on when the
+// callee's code finished — nothing fires while the switch is off, nothing is skipped while it is on.
+func switchOracle(cs *exCase, run *exRun) []string {
+	var out []string
+	type fr struct {
+		open      *impl.Event
+		kind      byte
+		swEntry   bool
+		providers []bool
+		steps     int
+	}
+	cur := cs.JP
+	var stack []*fr
+	evs := run.rec.Events
+	for i := range evs {
+		e := &evs[i]
+		switch e.Kind {
+		case "state":
+			if e.HasErr {
+				continue
+			}
+			if len(stack) > 0 && e.Depth == len(stack) {
+				stack[len(stack)-1].steps++
+			}
+			cur = e.Create
+		case "start", "enter":
+			if e.Kind == "enter" && e.Op == 0xff {
+				continue
+			}
+			k := e.Op
+			if e.Kind == "start" {
+				k = 0xf1
+				if e.Create {
+					k = 0xf0
+				}
+			}
+			stack = append(stack, &fr{open: e, kind: k, swEntry: cur})
+		case "provider":
+			if len(stack) > 0 {
+				stack[len(stack)-1].providers = append(stack[len(stack)-1].providers, e.Create)
+			}
+		case "end", "exit":
+			if e.Kind == "exit" && i > 0 && evs[i-1].Kind == "enter" && evs[i-1].Op == 0xff {
+				continue
+			}
+			if len(stack) == 0 {
+				continue
+			}
+			f := stack[len(stack)-1]
+			stack = stack[:len(stack)-1]
+			if f.kind != 0xf1 || f.steps == 0 {
+				continue // only CALL frames whose callee's code demonstrably ran are judged
+			}
+			var want []bool
+			if f.swEntry {
+				want = append(want, true)
+			}
+			if cur {
+				want = append(want, false)
+			}
+			if fmt.Sprint(want) != fmt.Sprint(f.providers) {
+				out = append(out, fmt.Sprintf("C05: call to %x: switch %v at entry and %v when its code finished, join point queries %v (true = pre), expected %v",
+					f.open.To[17:], f.swEntry, cur, f.providers, want))
+			}
+		}
+	}
+	if len(out) > 3 {
+		out = out[:3]
+	}
+	return out
+}
